@@ -34,5 +34,12 @@ def correspond(ctx):
                     'statuses': stats, 'presentations': tags})
     ctx.samples += lines[:2]
 
-def search(ctx, why): return
+def search(ctx, why):
+    """a proof obligation about the statistics / normalisers / epilogues no longer checks: look for a concrete instance on which an
+    'optimal' answer fails the documented conditions - problems with several 's' blocks, junk in the unreferenced triangles, objectives of small
+    magnitude (so that the gap criterion is met before the residuals converge)"""
+    import cvxopt            # already imported from the S0 build by correspond()
+    n = 150 if ctx.quick() else 1500
+    stats, tags, judged, lines = certlib.cone_runs(ctx, cvxopt, ['optimal', 'optimal', 'pinf', 'dinf'], n, 3, 'c01', focus='s-blocks')
+    ctx.cov['search'] = {'instances': n, 'judged': judged, 'statuses': stats}
 def replay(ctx, payload): correspond(ctx)
